@@ -11,10 +11,57 @@ open Goyang.Model Goyang.Model.Types Goyang.Spec.Types
 /-- Sequence numbers identify the loaded (sub)modules (`Registry.add` numbers them 0, 1, 2, …). -/
 def SeqId (reg : Registry) : Prop := ∀ a ∈ reg.mods, ∀ b ∈ reg.mods, a.seq = b.seq → a = b
 
-/-- Every include statement of every loaded (sub)module has been linked (`Modules.include` ran
-without error): the `Include.Module` pointers the model walks are the include statements the
-specification reads. -/
-def Linked (env : Env) : Prop := ∀ m ∈ env.reg.mods, env.includeTargets m = includesOf env.reg m
+/-- `m` is part of a schema: a module held in `ms.Modules`, or a submodule that one of them includes,
+directly or through other submodules.  (A submodule nobody includes is linked by nobody:
+`Modules.Process` walks the include statements from the modules down.) -/
+def PartOfSchema (reg : Registry) (m : Mod) : Prop := ∃ top ∈ Identity.moduleEntries reg, IncludesStar reg top m
+
+/-- Every include statement of every part of a schema has been linked (`Modules.include` ran without
+error): the `Include.Module` pointers the model walks are the include statements the
+specification reads.  Holds of `Env.of reg` whenever `linkOk reg` (Lemmas/TypesLinked.lean). -/
+def Linked (env : Env) : Prop :=
+  ∀ m ∈ env.reg.mods, PartOfSchema env.reg m → env.includeTargets m = includesOf env.reg m
+
+theorem includesStar_trans {reg : Registry} {a b c : Mod} (hab : IncludesStar reg a b) (hbc : IncludesStar reg b c) :
+    IncludesStar reg a c := by
+  induction hab with
+  | refl => exact hbc
+  | head h _ ih => exact IncludesStar.head h (ih hbc)
+
+theorem PartOfSchema.includes {reg : Registry} {a b : Mod} (h : PartOfSchema reg a) (hab : IncludesStar reg a b) :
+    PartOfSchema reg b := by
+  obtain ⟨top, ht, hs⟩ := h
+  exact ⟨top, ht, includesStar_trans hs hab⟩
+
+theorem partOfSchema_getModule {reg : Registry} {k : String} {o : Mod} (h : reg.getModule k = some o) :
+    PartOfSchema reg o := by
+  refine ⟨o, ?_, IncludesStar.refl o⟩
+  unfold Registry.getModule KeyMap.get? at h
+  obtain ⟨id, hid, hb⟩ := Option.bind_eq_some_iff.mp h
+  obtain ⟨kv, hkv, rfl⟩ := Option.map_eq_some_iff.mp hid
+  unfold Identity.moduleEntries
+  exact List.mem_filterMap.mpr ⟨kv, List.mem_of_find?_eq_some hkv, hb⟩
+
+theorem partOfSchema_findModule_false {reg : Registry} {i : Stmt} {ext : Mod} (h : reg.findModule false i = some ext) :
+    PartOfSchema reg ext := by
+  unfold Registry.findModule at h
+  simp only [Bool.false_eq_true, if_false] at h
+  split at h
+  · rename_i m' hm'
+    cases h
+    exact partOfSchema_getModule hm'
+  · exact partOfSchema_getModule h
+
+/-- The typedef a name binds to stands in a part of a schema when the reference does. -/
+theorem binds_partOfSchema {reg : Registry} {root : Mod} {scope : List Stmt} {name : String} {m : Mod} {td : Stmt}
+    {sc : List Stmt} (hroot : PartOfSchema reg root) (h : Binds reg root scope name m td sc) : PartOfSchema reg m := by
+  cases h with
+  | lexical => exact hroot
+  | moduleLevel m td _ _ _ hunit _ =>
+    rcases hunit with hstar | ⟨b, o, _, ho, hstar⟩
+    · exact hroot.includes hstar
+    · exact (partOfSchema_getModule ho).includes hstar
+  | foreign i ext m td _ _ _ _ hf hstar _ => exact (partOfSchema_findModule_false hf).includes hstar
 
 /-- Zero or more `Uses` steps. -/
 inductive UsesStar (reg : Registry) : Site → Site → Prop
